@@ -125,6 +125,36 @@ CHECKS = {
           "phase (echoBroadcast) is modelled but not replayed. Blocked = no return in 5 s (4x extra when the goroutine is not waiting on a lock).",
   "technique": "TLA+ lock model + TLC exhaustive and interleaving model checking + replay on real daemons (direct and loopback gRPC/HTTP, gated) + TLC trace validation",
  },
+ "C16": {
+  "text": "RoundTime.tla holds the exact integer definitions of round/time conversion, the relations of the statement and a line-by-line transcription of common/time.go on a W-bit machine (wrapping "
+          "uint64/int64 arithmetic, the log2-based guard, the reserved buffer). TLC explores exhaustively the statement's small grid (p 1..6, g 0..5, 41 instants, rounds 0..45) and 8- and 10-bit machines "
+          "(thorough: 12-bit) over their complete domain. Binding: TLC-generated grid and mid-range vectors (<= 2^31-1), Apalache-generated 64-bit boundary witnesses in 43 classes (around the guard, "
+          "period +-1 a power of two, the buffer edge, wrapping/negative products, instants on round boundaries up to 2^50 s, maximum period and genesis), their neighbours and seeded random points are "
+          "executed on the real TimeOfRound/CurrentRound/NextRound; every observed call is judged by TLA+ operators (Mon_CurrentUnique, Mon_CurrentSchedule, Mon_Next, Mon_Monotone, Mon_NoWrap): TLC below "
+          "2^31, Apalache for the 64-bit instance (each batch carries a canary tuple).",
+  "design_ref": "DESIGN.md 4 C16",
+  "note": "Trusted: TLC, Apalache/Z3, the harness's routing of values to TLC or Apalache. The float64 division in NextRound is modelled as exact inside the statement's domain (argued in the spec header, "
+          "sampled by the 64-bit vectors, not proved). The 64-bit region is covered by boundary classes plus sampling, not exhaustively. The error value is allowed from the coded guard on.",
+  "technique": "TLA+ spec + TLC exhaustive model checking + Apalache (SMT) witnesses and judging + trace validation of real-code calls",
+ },
+ "C17": {
+  "text": "Hashes.tla models the abstract hash as an injective tuple of exactly the fields the code hashes; TLC explores the complete graph of actions (single-field changes, node permutations, resharing, "
+          "encoding paths, tampered decodes; chain 64 values, group 28k quick / 134k thorough). The complete chain-info catalogue and TLC simulation walks are concretised with real points per scheme (2 by "
+          "seed in quick, all 5 in thorough) and run on Info.Hash, Group.Hash, JSON, protobuf, hexjson, group TOML, group protobuf and the group file store; Trace_Hashes.tla checks for every pair of "
+          "computations that digests are equal iff the abstract tuples are equal, over all paths, and that a chain info whose embedded hash does not match its fields is rejected on decode.",
+  "design_ref": "DESIGN.md 4 C17",
+  "note": "Trusted: collision resistance of the hash functions, the harness's concretisation. The catalogue is non-adversarial (the chain preimage is not length-delimited: seed||id; outside the statement).",
+  "technique": "TLA+ spec + TLC exhaustive model checking + simulation-generated behaviours + trace validation",
+ },
+ "C20": {
+  "text": "Codec.tla models the presence/absence lattice x statuses of seven value types (group 1..3 nodes quick / 1..10 thorough, key pair, identity, share, chain info, DKG DBState 12 statuses x 10 optional "
+          "parts, beacon), the encoding paths each travels and Normalise. TLC enumerates the whole lattice; every enumerated value is concretised per scheme and sent through the real encoders/decoders (TOML, "
+          "file store, protobuf wire, JSON, hexjson, the bolt DKG store's buckets); Trace_Codec.tla compares the projection of the decoded value plus content and hash equality with Normalise and demands "
+          "rejection of malformed groups (threshold out of range, unknown scheme) on all four group decoders.",
+  "design_ref": "DESIGN.md 4 C20",
+  "note": "Structural round-trip only: byte fidelity is shown for a few representative strings. Not covered: groups beyond 10 nodes, sub-second periods. Trusted: the harness projection.",
+  "technique": "TLA+ spec + TLC exhaustive enumeration + trace validation of real encoders/decoders",
+ },
  "C18": {
   "text": "Exhaustive TLC on StoreBackend.tla: complete state graphs of the transcribed bolt-untrimmed, bolt-trimmed (unchained and chained context) and memdb-ring back-ends against a reference sorted map "
           "round->beacon (rounds 0..4, 2-3 value identities, ring capacity 3 and 2, cursor sub-steps, Put/Del while a cursor is open). TLC-generated behaviours (one path per class of monitor failure, a sampled "
